@@ -76,7 +76,7 @@ OutOO(x, y, op, aug) ==
     [] x.cls = "OF" /\ y.cls = "OF" -> "ok"
     [] x.cls = "OQ"                 -> "ok"
     [] x.cls = "QO"                 -> IF y.cls = "OQ" THEN "either" ELSE "ok"
-    [] x.cls = "QH" /\ y.cls = "OQ" -> "either"
+    [] x.cls = "QH" /\ y.cls = "OQ" -> IF op = "add" THEN "ok" ELSE "either"       \* a native openfermion operator is a plain operator too
     [] x.cls = "QH" /\ y.cls = "QO" -> IF op = "add" THEN "ok" ELSE "either"       \* documented for + and ==
     [] x.cls = "QH" /\ y.cls = "QH" -> IF QMismatch(x, y) THEN (IF op = "add" THEN "reject" ELSE "either") ELSE "ok"
 
@@ -87,7 +87,7 @@ ResCls(x, y, op, aug) ==
   ELSE x.cls
 ResAnn(x, y, op, aug) == IF ResCls(x, y, op, aug) = x.cls THEN x.ann ELSE y.ann
 
-EqOutcome(x, y) == IF {x.cls, y.cls} = {"QH", "OQ"} THEN "either" ELSE "ok"
+EqOutcome(x, y) == "ok"
 EqValue(x, y) ==
   /\ OpEq(x.val, y.val)
   /\ (x.cls = "TF" /\ y.cls = "TF" => x.ann = y.ann)
@@ -120,4 +120,6 @@ ValA == OpAdd(Val1(K1, FromInt(2)), Val1(IdKey, RI))
 ValB == Val1(K2, RI)
 ValC == OpAdd(Val1(K1, Neg(ROne)), Val1(K3, ROne))
 ValsFixed == {ValA, ValB, ValC}
+\* degenerate values: the empty operator (no terms at all) and the identity-only operator
+ValId == Val1(IdKey, FromInt(2))
 =============================================================================
